@@ -106,13 +106,25 @@ fn run(args: &[String]) -> i32 {
         // max_matches_per_pattern: default, or a small limit (0 and 1 included)
         let limit: Option<usize> = if rng.chance(1, 3) { Some(*rng.pick(&[0usize, 1, 1, 2, 3])) } else { None };
         if let Some(l) = limit { stats.inc(&format!("max_matches_{}", l)); }
+        let use_file = single && rng.chance(1, 4);
+        let shard_no = shards.total;
+        if use_file { stats.inc("scan_file"); }
         // a panic anywhere (scan, finish, reading the match data) becomes an impossible observation with a replay
         let obs = catch(AssertUnwindSafe(|| if single {
             let mut s = yara_x::Scanner::new(&rules);
             s.match_context_size(ctx);
             if let Some(l) = limit { s.max_matches_per_pattern(l); }
-            let r = s.scan(&blocks[0].1).unwrap();
-            collect(&r)
+            // a quarter of the contiguous scans go through the file-mapping path
+            if use_file {
+                let path = std::env::temp_dir().join(format!("c17m_{}_{}.bin", std::process::id(), shard_no));
+                std::fs::write(&path, &blocks[0].1).unwrap();
+                let o = { let r = s.scan_file(&path).unwrap(); collect(&r) };
+                let _ = std::fs::remove_file(&path);
+                o
+            } else {
+                let r = s.scan(&blocks[0].1).unwrap();
+                collect(&r)
+            }
         } else {
             let mut s = yara_x::blocks::Scanner::new(&rules);
             s.match_context_size(ctx);
